@@ -199,7 +199,7 @@ def run(ctx):
         ctx.tie_broken("extraction-sat", log)
         return
     rng = ctx.rng
-    nscripts = 200 if ctx.quick else 3000
+    nscripts = 200 if ctx.quick else 2000
     size = 1
     jobs = []
     cfg_names = list(PROOF_CONFIGS)
